@@ -14,6 +14,9 @@ import (
 	"fmt"
 	"hash/crc32"
 	"io"
+	"os"
+	"os/exec"
+	"strings"
 )
 
 type SpecRange struct{ Lo, Hi int64 }
@@ -358,4 +361,112 @@ func DecodeSpec(file []byte, sf *SpecFile) (out []byte, ok bool, err error) {
 		out = append(out, make([]byte, want-int64(len(got)))...)
 	}
 	return out, true, nil
+}
+
+// ---- sampled independent decode of LZ4 / Zstandard leaves (C13) ----
+
+// ExternalDecodeLeaf decompresses one Zstandard leaf of a validated file with
+// the system `zstd` command-line tool (an implementation lib/rac does not link).
+// supported is false when the leaf's codec is another one, when the tool is not
+// installed, or when the leaf needs something the tool cannot be given (an LZ4
+// dictionary).
+func ExternalDecodeLeaf(file []byte, l SpecLeaf, scratchDir string) (out []byte, supported bool, err error) {
+	// Zstandard only: the specification's "RAC + LZ4" section is "TODO", so
+	// there is no stated chunk format to hold an LZ4 leaf to (a first version
+	// of this check piped LZ4 leaves through `lz4 -d` and raised two alarms
+	// that were its own).
+	if l.Codec.Long || l.Codec.ID != 3 {
+		return nil, false, nil
+	}
+	tool := "zstd"
+	path, lerr := exec.LookPath(tool)
+	if lerr != nil {
+		return nil, false, nil
+	}
+	args := []string{"-d", "-c"}
+	if l.S.Size() != 0 {
+		dict, derr := LoadSpecDict(file, l.S)
+		if derr != nil {
+			return nil, true, fmt.Errorf("dictionary: %v", derr)
+		}
+		f, ferr := os.CreateTemp(scratchDir, "zdict-")
+		if ferr != nil {
+			return nil, false, nil
+		}
+		defer os.Remove(f.Name())
+		f.Write(dict)
+		f.Close()
+		args = append(args, "-D", f.Name())
+	}
+	// A Primary CRange may extend beyond the chunk's own frame (CLen counts
+	// 1024-byte units): the next chunk's frame or index bytes may follow. The
+	// tool gets exactly the first frame, whose extent the block headers give.
+	n, ok := zstdFirstFrameLen(file[l.P.Lo:l.P.Hi])
+	if !ok {
+		return nil, true, fmt.Errorf("the Primary CRange does not start with a complete Zstandard frame")
+	}
+	cmd := exec.Command(path, args...)
+	cmd.Stdin = bytes.NewReader(file[l.P.Lo : l.P.Lo+int64(n)])
+	var so, se bytes.Buffer
+	cmd.Stdout, cmd.Stderr = &so, &se
+	if rerr := cmd.Run(); rerr != nil {
+		return nil, true, fmt.Errorf("%s -d failed on the %d-byte frame: %v: %s", tool, n, rerr, strings.TrimSpace(se.String()))
+	}
+	return so.Bytes(), true, nil
+}
+
+// zstdFirstFrameLen returns the length in bytes of the Zstandard frame at the
+// start of b (RFC 8478 section 3.1.1), walking the block headers.
+func zstdFirstFrameLen(b []byte) (int, bool) {
+	if len(b) < 5 || b[0] != 0x28 || b[1] != 0xB5 || b[2] != 0x2F || b[3] != 0xFD {
+		return 0, false
+	}
+	fhd := b[4]
+	fcsFlag, single, checksum, didFlag := fhd>>6, fhd&0x20 != 0, fhd&0x04 != 0, fhd&0x03
+	p := 5
+	if !single {
+		p++ // Window_Descriptor
+	}
+	p += []int{0, 1, 2, 4}[didFlag]
+	switch fcsFlag {
+	case 0:
+		if single {
+			p++
+		}
+	case 1:
+		p += 2
+	case 2:
+		p += 4
+	default:
+		p += 8
+	}
+	for {
+		if p+3 > len(b) {
+			return 0, false
+		}
+		h := uint32(b[p]) | uint32(b[p+1])<<8 | uint32(b[p+2])<<16
+		p += 3
+		last, typ, size := h&1 != 0, (h>>1)&3, int(h>>3)
+		switch typ {
+		case 0, 2:
+			p += size
+		case 1:
+			p++
+		default:
+			return 0, false
+		}
+		if p > len(b) {
+			return 0, false
+		}
+		if last {
+			break
+		}
+	}
+	if checksum {
+		p += 4
+	}
+	if p > len(b) {
+		return 0, false
+	}
+	return p, true
 }
